@@ -418,7 +418,9 @@ def _is_domain_host(x):
 def _explainable(st, ei, kind, before, after):
     """Structural position (a fact about the INPUT line only) that a recorded defect of the tree explains; "" when
     there is none.  Used as the narrow feature known findings match on, never to suppress anything here.
-      mac : the address is directly preceded / followed by ':' or '-'  -> that character (mac.py look-around)
+      mac : the address is directly preceded / followed by ':' or '-'  -> that character (mac.py look-around);
+            it directly follows a keyword that ends with a non-word character -> "glued-after-keyword" (delimited in the
+            input, but keyword replacement runs first and `keywordN` ends with a digit)
       host: the name is joined by '-' to a neighbouring host name of the domain whose text also stands earlier on
             the same line -> "hyphen-compound-after-earlier-occurrence" (hostname.py replaces the earlier, shorter
             match everywhere first, after which the longer compound match is no longer found in the line); joined by
@@ -428,6 +430,8 @@ def _explainable(st, ei, kind, before, after):
             return before
         if after in (":", "-"):
             return after
+        if ei >= 2 and st[ei - 1] == "" and st[ei - 2][0] == "kw" and st[ei - 2][1][-1:] not in WORD:
+            return "glued-after-keyword"          # ...] + MAC: `keywordN` ends with a digit, the look-behind rejects it
         return ""
     if kind == "host" and _is_domain_host(st[ei]):
         partners = []
@@ -493,7 +497,12 @@ def oracle(cfg, structs, in_lines, out_lines, cleaner, path="content"):
     # -- IPv4-shaped survivors that are neither loopback nor an issued substitute
     # (not on the keep-width paths: that variant deliberately removes / inserts characters next to the substitute, and
     #  what is left of a neighbouring token can complete a dotted number - an artefact, not an original address)
-    if ip_on and path not in WIDTH_PATHS:
+    #  (nor when an address of the line is glued to a following word character: a substitute followed by the rest of
+    #  the line - `10.230.230.1` + `7f1f....example.com`, + `0:ff:00:...` - reads as a longer dotted number)
+    glued_ip = any(t[0] in ("ip", "lo") and a in WORD
+                   for st, text in zip(structs, in_lines) for (t, b, e) in line_spans(st)
+                   for a in [text[e:e + 1]])
+    if ip_on and path not in WIDTH_PATHS and not glued_ip:
         issued = set(subs)
         for m in _IPV4_SHAPED.finditer(raw):
             a = m.group(0)
@@ -685,7 +694,8 @@ def _pair_space(tier, ci, t1, t2):
     """(d0, d1, d2) of the pair lines of configuration ci (0 = default)"""
     if ci == 0:
         base = D_RED if tier == "quick" else D_FULL
-        return [(d0, d1, d2) for d0 in _left(base) for d1 in _inner(t1, base[1:]) for d2 in _right(t2, base)]
+        left = _left(D_MIN) if tier == "quick" else _left(base)     # quick: left-hand boundaries are the singles' job
+        return [(d0, d1, d2) for d0 in left for d1 in _inner(t1, base[1:]) for d2 in _right(t2, base)]
     if tier == "quick":
         # single-token boundaries: see "singles" (full D); '/' and '=' (secret-class interplay): default configuration
         outer = DIAG3 + ([("", w) for w in IPV4_RIGHT] if _is_ip(t2) else [])
@@ -780,7 +790,7 @@ def run_unit(unit, tier):
         elif part == "singles":
             cfg = cfgs[unit["cfg"]]
             files = ("file",) if cfg.get("allow") else ("file", "write", "dswrite")
-            small = set(D_RED + IPV4_RIGHT)
+            small = set((D_RED if unit["cfg"] == 0 else D_MIN) + IPV4_RIGHT)
             for t1 in range(NT):
                 for d0 in _left(D_FULL):
                     for d2 in _right(t1, D_FULL):
@@ -794,10 +804,11 @@ def run_unit(unit, tier):
             # pairs at the line boundaries through the two file paths (the terminator is what differs there)
             cfg = cfgs[unit["cfg"]]
             files = ("file",) if cfg.get("allow") else ("file", "write")
-            base = D_FULL[1:] if tier == "thorough" else (D_RED[1:] if unit["cfg"] == 0 else [" ", ":"])
+            base = D_FULL[1:] if tier == "thorough" else (D_RED[1:] if unit["cfg"] == 0 else [" "])
+            glue = [""] if (tier == "thorough" or unit["cfg"] == 0) else []
             for t1 in range(NT):
                 for t2 in range(NT):
-                    for d1 in _inner(t1, base, glue=[""]):
+                    for d1 in _inner(t1, base, glue=glue):
                         for d2 in [""] + (IPV4_RIGHT if _is_ip(t2) else []):
                             st = [mk_line([t1, t2], ["", d1, d2])]
                             for path in files:
